@@ -255,6 +255,78 @@ def header_cases(rng, tier, check_end, case_fix):
     return terms, raw
 
 
+def arg_ptok(text):
+    """(type, text) of the ONE token a macro argument becomes (tokenizer.append_token merges the tokens of an
+    argument; a string literal stays a STRING token, everything else the generator writes is a glued KEYWORD)"""
+    if text[:1] in "\"'":
+        return ("STRING", text[1:-1])
+    return ("KEYWORD", text)
+
+
+def param_tie(pairs):
+    """(d) parameterised macros: real tokens of `KEY(args)` vs Model.MacroSubst.param_expand on the real tokenisation
+    of the #define line.  -> (terms, raw, skipped)"""
+    cand = [p for p in pairs if p.get("tie") and "params" in p["tie"]]
+    jobs = []
+    for p in cand:
+        jobs.append(dict(string=p["header"][1:], line=1, col=2, expect_semicolon=False, allow_last=False))
+        jobs.append(dict(string=p["tie"]["use"], line=1, col=1, expect_semicolon=False, allow_last=False, header=p["header"]))
+    res = run_py(RUNNER, dict(op="parse", jobs=jobs), timeout=600) if jobs else []
+    terms, raw, skipped = [], [], 0
+    pt = lambda t: f"({t[0]}, {coq_str(t[1])})"
+    for k, p in enumerate(cand):
+        line, use = res[2 * k], res[2 * k + 1]
+        if not line["ok"] or not use["ok"] or len(line["programs"]) != 1 or len(use["programs"]) != 1:
+            skipped += 1
+            continue
+        toks = line["programs"][0]
+        body = [(t[0], t[3]) for t in toks[3:]]
+        real = [(t[0], t[3]) for t in use["programs"][0]]
+        args = [arg_ptok(a) for a in p["tie"]["args"]]
+        if not all(M.is_ascii(x[1]) for x in body + real + args):
+            skipped += 1
+            continue
+        terms.append(f"(mkPCase {coq_list(coq_str(x) for x in p['tie']['params'])} {coq_list(pt(a) for a in args)} "
+                     f"{coq_list(pt(b) for b in body)} {coq_list(pt(r) for r in real)})")
+        raw.append(dict(header=p["header"], use=p["tie"]["use"], real=real))
+    return terms, raw, skipped
+
+
+def calc_tie(pairs, rng):
+    """(e) Hardcode.calc: the text the real hardcode_parse_calc hands to the evaluator vs Model.MacroSubst.calc_text,
+    on the generated name sets: expressions over the names, and junk built from names, digits and letters glued
+    together (unknown longer words, names next to digits).  -> (terms, raw)"""
+    cand = [p for p in pairs if p.get("tie") and "exprs" in p["tie"]]
+    hjobs = [dict(string="x", line=1, col=1, expect_semicolon=False, allow_last=False, header=p["header"]) for p in cand]
+    hres = run_py(RUNNER, dict(op="parse", jobs=hjobs), timeout=600) if hjobs else []
+    jobs = []
+    for p, h in zip(cand, hres):
+        if not h["ok"]:
+            continue
+        num = [[k, v] for k, v in h["num"].items()]
+        names = p["tie"]["names"]
+        exprs = [e.replace("$i", str(rng.randint(0, 9))) for e in p["tie"]["exprs"]]
+        for _ in range(2):
+            parts = [rng.choice(names + names + ["", "7", "x", "_", ".", " ", "+", "*", "(1)", "12"]) for _ in range(rng.randint(1, 5))]
+            exprs.append("".join(parts))
+        for e in exprs:
+            if e.count("(") == e.count(")") and M.is_ascii(e):
+                jobs.append(dict(num=num, expr=e))
+    res = run_py(RUNNER, dict(op="calc", jobs=jobs), timeout=600) if jobs else []
+    terms, raw = [], []
+    for j, r in zip(jobs, res):
+        if r["ok"]:
+            real = "None" if r["text"] is None else f"(Some {coq_str(r['text'])})"
+        elif r["exc"] == "JMCSyntaxException" and "Invalid character" in r["msg"]:
+            real = "None"
+        else:
+            continue            # unbalanced text etc.: not part of the substitution
+        num = coq_list(f"({coq_str(k)}, {coq_str(v)})" for k, v in j["num"])
+        terms.append(f"(mkCCase {num} {coq_str('(' + j['expr'] + ')')} {real})")
+        raw.append(dict(job=j, real=r))
+    return terms, raw
+
+
 def order_cases(rng):
     """(a, b): a = the operator being pushed (always the LATER token of the expression, so its line is never smaller),
     b = the operator on top of the stack; columns are arbitrary (macro expansion synthesises them)."""
@@ -277,6 +349,9 @@ def main(tier: str) -> int:
         "#env, #bind __namespace__, number_macros): hand-written ports; tied to /repo on every run by exact equality of the token "
         "streams (with synthetic positions) the real header parser + tokenizer produce for header text + use-site text, of "
         "Header.number_macros, and of CustomOrder.__lt__ on a grid",
+        "Model/MacroSubst.v: param_expand (template + factory of header_parse.__create_macro_factory at the level of token type "
+        "and text) tied to the tokens the real tokenizer produces for `KEY(args)`; calc_text (the str.replace loop of "
+        "hardcode_parse_calc, longest name first, and its character check) tied to the text the real function hands to eval_expr",
         "outside the model: macros with parameters, #deepdefine, EVAL/NOT, __namehash__/__UUID__ (metamorphic runs only); what the "
         "lexer does with tokens (reads positions only through is_connected / CustomOrder - checked by the metamorphic pairs)",
     ]
@@ -343,6 +418,11 @@ def main(tier: str) -> int:
               f"(mkOrd {coq_z(b[0])} {coq_z(b[1])} {coq_z(b[2])} {coq_bool(b[3])}) {coq_bool(bool(r))})"
               for (a, b), r in zip(opairs, oreal) if r is not None]
     obad, errs3 = eval_cases(PROP, HEADER16, oterms, per_file=400, checker="omismatches", prefix="order")
+    pterms, praw, pskipped = param_tie(pairs)
+    pbad, errs4 = eval_cases(PROP, HEADER16, pterms, per_file=300, checker="pmismatches", prefix="param")
+    cterms, craw = calc_tie(pairs, ck.rng)
+    cbad, errs5 = eval_cases(PROP, HEADER16, cterms, per_file=300, checker="cmismatches", prefix="calc")
+    errs3 = errs3 + errs4 + errs5
     note = ("the Coq model (of the repaired macro position synthesis / number_macros / CustomOrder) no longer describes the code; "
             + ("see the macro-differs-from-hand-expansion replays of this run for failing inputs" if viol_n
                else "the metamorphic search found no failing input"))
@@ -352,6 +432,12 @@ def main(tier: str) -> int:
         ck.violation(dict(kind="macro-token-correspondence-differs", n=len(bad), note=note,
                           cases=[dict(header=raw[i][0]["header"], text=raw[i][0]["string"], real=raw[i][1]) for i in bad[:3]]),
                      no_input=True)
+    if pbad:
+        ck.violation(dict(kind="parameter-substitution-correspondence-differs", n=len(pbad), note=note,
+                          model="Model.MacroSubst.param_expand", cases=[praw[i] for i in pbad[:3]]), no_input=True)
+    if cbad:
+        ck.violation(dict(kind="hardcode-calc-substitution-correspondence-differs", n=len(cbad), note=note,
+                          model="Model.MacroSubst.calc_text", cases=[craw[i] for i in cbad[:3]]), no_input=True)
     if obad:
         ck.violation(dict(kind="custom-order-correspondence-differs", n=len(obad), note=note,
                           cases=[dict(a=opairs[i][0], b=opairs[i][1], real=oreal[i]) for i in obad[:4]]), no_input=True)
@@ -360,7 +446,7 @@ def main(tier: str) -> int:
     for p in pairs:
         hist[p["use"]] = hist.get(p["use"], 0) + 1
     ck.cov.update(dict(
-        evaluations=len(pairs) + len(terms) + len(oterms) + seq_steps,
+        evaluations=len(pairs) + len(terms) + len(oterms) + seq_steps + len(pterms) + len(cterms),
         distinct_nontrivial=len({(p["a"], p["header"]) for p in pairs}),
         rule="metamorphic pair = (macro definition, use-site kind, left/right spacing 0-3): program with the macro + header vs "
              "hand-expanded program, file maps must be identical; left-alone pairs: same program with and without the header; "
@@ -375,7 +461,10 @@ def main(tier: str) -> int:
         relation_pairs_valid={m: sum(1 for p, a, b in zip(pairs, ra, rb) if p["macro"] == m and (a["ok"] or b["ok"]))
                               for m in ("param-relations", "int-name-relations", "left-alone-relations")},
         model_tie=dict(header_token_cases=len(terms), mismatches=len(bad), model_declined=len(uns),
-                       custom_order_cases=len(oterms), custom_order_mismatches=len(obad)),
+                       custom_order_cases=len(oterms), custom_order_mismatches=len(obad),
+                       parameter_substitution_cases=len(pterms), parameter_substitution_mismatches=len(pbad),
+                       parameter_substitution_skipped=pskipped,
+                       hardcode_calc_cases=len(cterms), hardcode_calc_mismatches=len(cbad)),
         samples=[dict(header=p["header"], with_macro=p["a"], hand=p["b"]) for p in pairs[:2]],
     ))
     return ck.finish()
